@@ -7,10 +7,11 @@
 EXTENDS EzApi, Json
 CONSTANTS NPts, NFr
 
+blank == <<32, 32>>      \* a name made of spaces only: stored and found as the empty name
 p1 == <<112,49>>  p2s == <<112,50,32>>  a1s == <<97,49,32,32>>  a2 == <<97,50>>
 gG1 == <<71,49>>  nA == <<65>>
-MC_PNames == IF NPts >= 2 THEN {p1, p2s} ELSE {p2s}
-MC_ANames == IF NPts >= 2 THEN {a1s, a2} ELSE {a1s}
+MC_PNames == IF NPts >= 3 THEN {p1, p2s, blank} ELSE IF NPts = 2 THEN {p2s, blank} ELSE {p2s}
+MC_ANames == IF NPts >= 3 THEN {a1s, a2, blank} ELSE IF NPts = 2 THEN {a1s, blank} ELSE {a1s}
 MC_PRates == {FOfNat(100)}
 MC_ARates == {FOfNat(100), FOfNat(200)}
 MC_FrameKinds == {"conf", "padded", "ctorpad"}
